@@ -44,6 +44,14 @@ Proof.
   intros H. split; [apply deep_equal_length; exact H|apply deep_equal_nth; exact H].
 Qed.
 Print Assumptions C08_typed_deep_equal.
+(* the same-value relation is transitive as well: distinct-values keeps exactly one value of every class *)
+Theorem C08_typed_same_value_transitive : forall a b c, dv_same a b = true -> dv_same b c = true -> dv_same a c = true.
+Proof. exact dv_same_trans. Qed.
+Print Assumptions C08_typed_same_value_transitive.
+(* numeric promotion in min / max / sum / avg: the result type is at least the type of every numeric item *)
+Theorem C08_typed_promotion : forall l u v, In (ANum u v) l -> trank u <= trank (num_type l).
+Proof. exact num_type_upper. Qed.
+Print Assumptions C08_typed_promotion.
 Example C08_typed_nonvacuous :
   distinct_values [ANum TInteger (NFin 1 1); ANum TDouble (NFin 2 2); ABool true; AUntyped 4 None; AStr false 4; ANum TDouble NNaN; ANum TFloat NNaN] =
     [ANum TInteger (NFin 1 1); ABool true; AUntyped 4 None; ANum TDouble NNaN] /\
